@@ -88,6 +88,11 @@ class EventDispatcher:
             (event_name, getattr(handler.__class__, method_name))
             for event_name, method_name in handler.__events__.items())
 
+        # ... nor if one of them cannot be stored (callable objects
+        # happen to be unhashable): a handler is never registered halfway
+        for _, method_ref in callbacks:
+            hash(method_ref)
+
         # A handler is registered at most once: adding it again
         # replaces its previous registration
         self._remove_weak_handler(_HandlerRef(handler))
